@@ -269,6 +269,7 @@ func runParent(ck *Check, tier Tier, nworkers int) int {
 			defer wg.Done()
 			skipFile := filepath.Join(work, fmt.Sprintf("skip-%d", w))
 			var skips []string
+			unattributed := 0
 			for attempt := 0; ; attempt++ {
 				outFile := filepath.Join(work, fmt.Sprintf("part-%d-%d.gob", w, attempt))
 				jFile := filepath.Join(work, fmt.Sprintf("journal-%d", w))
@@ -319,6 +320,17 @@ func runParent(ck *Check, tier Tier, nworkers int) int {
 				}
 				jb, _ := os.ReadFile(jFile)
 				entry := strings.TrimSpace(string(jb))
+				if entry == "" && libraryAbort(string(b)) {
+					// the process was aborted by a panic inside the library while no execution was under way (typically a goroutine that
+					// outlived the call it belonged to and blew up afterwards): an observation about the library, not a harness failure.
+					// It is not attributable to one execution, so there is no choice list to replay; the trace is the evidence.
+					mu.Lock()
+					crashViolations = append(crashViolations, &Violation{Property: ck.ID, Scenario: "(between two executions)", Signature: crashSignature(string(b)) + " [between two executions: a goroutine outlived its call]",
+						Message: "a worker process was aborted by a panic in library code while no execution was under way", Trace: strings.Split(tail(string(b), 3000), "\n"), Reruns: 1, Count: 1})
+					merged.Truncated = true
+					mu.Unlock()
+					return
+				}
 				if entry == "" {
 					mu.Lock()
 					harnessFail = true
@@ -332,6 +344,18 @@ func runParent(ck *Check, tier Tier, nworkers int) int {
 					crashViolations = append(crashViolations, v)
 				} else {
 					merged.Unreproducible = append(merged.Unreproducible, "worker death not reproduced: "+entry)
+					if libraryAbort(string(b)) {
+						unattributed++
+					}
+				}
+				if v == nil && unattributed >= 3 {
+					// three deaths of this worker by a panic in library code, none of which is reproduced by the execution that was under
+					// way: the abort does not belong to one execution (a goroutine that outlived its call blows up during a later one)
+					crashViolations = append(crashViolations, &Violation{Property: ck.ID, Scenario: "(not attributable to one execution)", Signature: crashSignature(string(b)) + " [not attributable to one execution: a goroutine outlived its call]",
+						Message: "a worker process was aborted three times by a panic in library code; re-running the execution that was under way does not reproduce it", Trace: strings.Split(tail(string(b), 3000), "\n"), Reruns: 3, Count: 3})
+					merged.Truncated = true
+					mu.Unlock()
+					return
 				}
 				merged.Truncated = true // the subtree below the crashing execution is not explored
 				mu.Unlock()
@@ -602,4 +626,28 @@ func runReplay(ck *Check, path string) int {
 	}
 	fmt.Printf("VIOLATION property=%s replay=%s\n", ck.ID, path)
 	return exitViolation
+}
+
+// libraryAbort reports whether a dead worker's output is a Go panic / fatal error whose goroutine was running library code (the
+// panicking goroutine's frames name the module under test before any frame of the harness).
+func libraryAbort(stderr string) bool {
+	i := strings.Index(stderr, "\npanic:")
+	if strings.HasPrefix(stderr, "panic:") {
+		i = 0
+	}
+	if j := strings.Index(stderr, "fatal error:"); i < 0 && j >= 0 {
+		i = j
+	}
+	if i < 0 {
+		return false
+	}
+	rest := stderr[i:]
+	if k := strings.Index(rest, "\n\ngoroutine "); k >= 0 {
+		if k2 := strings.Index(rest[k+2:], "\n\n"); k2 >= 0 {
+			rest = rest[:k+2+k2] // the panic header and the first (panicking) goroutine only
+		}
+	}
+	lib := strings.Index(rest, "github.com/notaryproject/notation-core-go/")
+	har := strings.Index(rest, "verif/")
+	return lib >= 0 && (har < 0 || lib < har)
 }
